@@ -229,7 +229,10 @@ def oracle(c, outs):
         if st[0] in ("E", "X") or c.get("outside_domain"):
             continue            # entering/leaving is C12's business (tied here); rows with control characters are not judged
         if "error" in o:
-            return None     # a control function outside the terminal spec: the reference screen is undefined; the tie reports it
+            # the output cannot be read by the reference terminal at all (not a missing erase/cursor function: those are
+            # executed as reference-only operations): nothing can be judged - said loudly in the evidence
+            c["_unreadable"] = o["error"]
+            return None
         _, pos, rows, _ = st
         want = [(eff_row(rows[r])[:w] if r < len(rows) else []) for r in range(h)]
         want = tuple(tuple(row + [termref.BLANK] * (w - len(row))) for row in want)
@@ -241,7 +244,7 @@ def oracle(c, outs):
         if s["cursor"][:3] != (pos[0], pos[1], False):
             return "step %d: cursor at %r, cursor_pos is %r" % (i, s["cursor"], pos)
         if s["cursor"][3] != (True if not c["hide"] else o["before"]["cursor"][3]):
-            return "step %d: cursor visibility %r not restored" % (i, s["cursor"][3])
+            c["_visibility"] = i        # cursor visibility is C12's statement, not C02's: counted, compared at representation level
         if s["scrollback"] != o["before"]["scrollback"]:
             return "step %d: the screen scrolled" % i
         if s["g"] != ():
@@ -375,6 +378,9 @@ def pair_cases(ctx):
                  (2, 2, [("a", {}), ("a", red)], 3, 3, 60000),                               # of 3616^2 (too tall / too wide)
                  (2, 3, [("a", {}), ("a", red)], 2, 3, None),                                # 241^2 = 58 081, all
                  (2, 3, [("a", {}), ("b", {}), ("a", red)], 2, 3, 60000)]
+    # the smallest terminals: one column and/or one row (a full-width row is one character: pending wrap at once)
+    for hw in ((1, 1), (2, 1), (3, 1), (1, 2), (1, 3)):
+        specs.append((hw[0], hw[1], [("a", {}), ("b", {}), ("a", red)], min(hw[0] + 1, 3), min(hw[1] + 1, 3), 6000 if ctx.thorough else 1500))
     for h, w, vals, maxh, maxlen, sample in specs:
         arrays = list(all_arrays(vals, maxh, maxlen))
         pairs = itertools.product(range(len(arrays)), repeat=2)
@@ -533,7 +539,15 @@ def check(ctx):
         w = safe_oracle(c, outs[id(c)])
         if w:
             ctx.violation(w, c, None)
-        elif c.get("_pyte_disagrees"):
+        if c.get("_unreadable"):
+            ctx.dist["UNREADABLE-OUTPUT-history-not-judged"] += 1
+            if ctx.dist["UNREADABLE-OUTPUT-history-not-judged"] == 1:
+                ctx.note("UNREADABLE OUTPUT: the reference terminal cannot read what the window wrote (%s); such histories are "
+                         "NOT JUDGED by the oracle (count in distribution: UNREADABLE-OUTPUT-history-not-judged); first: %r"
+                         % (c["_unreadable"], line(c)[:200]))
+        if c.get("_visibility") is not None:
+            ctx.dist["cursor-visibility-not-as-before-the-render (C12's, not judged here)"] += 1
+        if not w and c.get("_pyte_disagrees"):
             ctx.dist["pyte-disagrees-with-reference-terminal"] += 1
             if ctx.dist["pyte-disagrees-with-reference-terminal"] == 1:
                 ctx.note("pyte (second opinion) disagrees with the reference terminal although the property holds on it, "
